@@ -71,8 +71,9 @@ def placement_jobs() -> list[dict]:
     return [W.job('circuit', dict(n=3, ops=ops), ms, 3, seed=1234, tag='placement-asym7-L3')]
 
 
-def vendor_jobs(classes=('rzry', 'h1like')) -> list[dict]:
-    """One run per vendor-like gate set (no general single-qudit gate; RZ without SX / RX; Quantinuum-like)."""
+def vendor_jobs(classes=('rzry', 'h1like', 'u1rx', 'u1sx', 'rzrx')) -> list[dict]:
+    """One small run per gate-set class without a general single-qudit gate: vendor-like (RZ without SX / RX,
+    Quantinuum-like) and the ZX bases {U1,RX}, {U1,SX}, {RZ,RX} ({RZ,SX} is in the main stream)."""
     return [W.job('circuit', DEMO_SQ, model_spec(2, 'all', mc), 1, seed=1234, tag='vendor-' + mc) for mc in classes]
 
 
@@ -289,6 +290,91 @@ def submodel_probe(ctx: vf.Ctx, count: int):
                                   'qudits the block is placed on')
     finally:
         fe.get_runtime = saved
+
+
+def sq_leaf_probe(ctx: vf.Ctx):
+    """Pass-level validation of the assumed-and-tested `sq_native` contract of the single-qudit retarget leaves, per
+    gate-set class: the block body of the LIVE build_single_qudit_retarget_workflow (IfThenElse over SinglePhysical /
+    HasGeneral / ZX selecting GeneralSQDecomposition / ZXZXZDecomposition) is run directly (asyncio, PassData with the
+    class's model) on a few 1-qubit blocks; only native single-qudit gates may come out and the unitary must be kept up to
+    a global phase.  Classes whose selected leaf is the numerical single-qudit search are left to the compile() runs."""
+    import asyncio
+    import numpy as np
+    import gen_workflows as G
+    from bqskit.ir.circuit import Circuit
+    from bqskit.compiler.compile import build_single_qudit_retarget_workflow
+    from bqskit.compiler.passdata import PassData
+    from bqskit.compiler.workflow import Workflow
+    from bqskit.passes.control.foreach import ForEachBlockPass
+
+    def leaves(p, acc):
+        if isinstance(p, Workflow):
+            for x in p:
+                leaves(x, acc)
+            return acc
+        acc.append(type(p).__name__)
+        for v in vars(p).values():
+            if isinstance(v, Workflow):
+                leaves(v, acc)
+        return acc
+
+    def find_body(p):
+        if isinstance(p, ForEachBlockPass) and 'GeneralSQDecomposition' in leaves(p.workflow, []):
+            return p.workflow
+        subs = list(p) if isinstance(p, Workflow) else [v for v in vars(p).values() if isinstance(v, Workflow)]
+        for x in subs:
+            r = find_body(x)
+            if r is not None:
+                return r
+        return None
+    try:
+        body = find_body(Workflow(build_single_qudit_retarget_workflow(1)))
+    except Exception as e:  # noqa
+        body = None
+        ctx.cov['sq_leaf_probe_error'] = repr(e)
+    if body is None:
+        ctx.broken_obligation('single-qudit retarget leaf probe: block body not found in build_single_qudit_retarget_workflow', '')
+        return
+    gt = W.gate_table()
+    r = np.random.RandomState(11)
+    blocks = [[('h', [])], [('t', []), ('h', []), ('s', [])], [('x', [])],
+              [('u3', [float(x) for x in r.uniform(-3, 3, 3)])],
+              [('rz', [0.7]), ('rx', [1.9]), ('ry', [-2.3])],
+              [('u3', [float(x) for x in r.uniform(-3, 3, 3)]), ('sx', [])]]
+    for mc in G.model_classes():
+        model = G.build_model(mc, 2)
+        live = G.cfg_constants(model)
+        if live['nosq_model'] or not (live['has_gen'] or live['zx_model']):
+            ctx.count('sq_leaf_probe_skipped_search_class')
+            continue
+        native = set(model.gate_set)
+        for ops in blocks:
+            c = Circuit(1)
+            for g, ps in ops:
+                c.append_gate(gt[g], 0, ps)
+            u_in = c.get_unitary().numpy
+            data = PassData(c)
+            data.model = model
+            key = ('sq-leaf', mc, tuple((g, tuple(ps)) for g, ps in ops))
+            ctx.case(key, nontrivial=True)
+            ctx.count('sq_leaf_probe')
+            case = dict(probe='sq_leaf', model=mc, gates=sorted(g.name for g in native), block=ops)
+            try:
+                asyncio.run(body.run(c, data))
+            except Exception as e:  # noqa
+                ctx.violation(dict(call='sq_retarget_leaf', model=mc, symptom='raised'), case, 'a native 1-qubit circuit',
+                              repr(e)[:300], 'the single-qudit retarget leaf raised on a 1-qubit block')
+                continue
+            c.unfold_all()
+            bad = sorted({op.gate.name for op in c if op.gate not in native})
+            if bad:
+                ctx.violation(dict(call='sq_retarget_leaf', model=mc, symptom='sq_not_native'), case,
+                              'only gates of ' + str(case['gates']), bad,
+                              'the single-qudit retarget leaf selected for this gate set emits a gate the model lacks')
+            ov = abs(np.trace(u_in.conj().T @ c.get_unitary().numpy)) / 2
+            if ov < 1 - 1e-8:
+                ctx.violation(dict(call='sq_retarget_leaf', model=mc, symptom='unitary_changed'), case, 'overlap 1', float(ov),
+                              'the single-qudit retarget leaf changed the block unitary (beyond a global phase)')
 
 
 def corpus_calls(ctx: vf.Ctx):
@@ -520,6 +606,7 @@ def run(ctx: vf.Ctx):
     # ---- correspondence ---------------------------------------------------------------------
     corpus_calls(ctx)
     submodel_probe(ctx, ctx.n(60, 600))
+    sq_leaf_probe(ctx)
     predicate_constants(ctx, 120 if ctx.quick() else 600)
     if ctx.extract_ok.get('wfcompat'):
         correspondence(ctx, ctx.n(400, 4000))
@@ -546,6 +633,9 @@ def replay(ctx: vf.Ctx, data: dict):
         return
     if data.get('kind') == 'broken-obligation':
         run(ctx)
+        return
+    if isinstance(case, dict) and case.get('probe') == 'sq_leaf':
+        sq_leaf_probe(ctx)
         return
     if isinstance(case, dict) and case.get('probe') == 'submodel':
         submodel_probe(ctx, 5)
